@@ -239,6 +239,14 @@ def stream_view_shape(R, view_shape):
         views.append(tuple(np.array([rng.randrange(n) for _ in range(4)]) for n in sh))
         views.append(np.array([rng.random() < 0.5 for _ in range(int(np.prod(sh)))]).reshape(sh))
         views.append((np.array([rng.randrange(sh[0]) for _ in range(3)]),))
+        # plain Python lists are index arrays too ([0, 2] selects two entries along axis 0; it is NOT the tuple (0, 2))
+        views.append([rng.randrange(sh[0]) for _ in range(2)])
+        views.append([0] * 3)
+        views.append([[rng.randrange(sh[0]) for _ in range(2)] for _ in range(2)])
+        if len(sh) >= 2:
+            views.append(([rng.randrange(sh[0]) for _ in range(2)], slice(None)))
+            views.append((slice(None), [rng.randrange(sh[1]) for _ in range(3)]))
+        views.append([rng.random() < 0.5 for _ in range(sh[0])])
         for view in views:
             nadv += 1
             real = np.zeros(sh)[view].shape if view is not None else tuple(sh)
@@ -384,6 +392,49 @@ def stream_categorical(R, categorical_ndarray):
                    '(reverse, permutation, roll, slice, stride, copy, sort; 1-d only: a reshaped 2-d array with preset categories raises in index_lookup, outside the stated domain) after the parent codes were read' % Lmax)
 
 
+def stream_index_lookup(R, categorical_ndarray):
+    """index_lookup / codes with explicit categories: a finite code points at the element's own value; values that are
+    missing (None / NaN) or not among the categories get NaN"""
+    from glue.utils.array import index_lookup
+    rng = R.subrng('index_lookup')
+    alphabets = [['a', 'b', 'c'], ['b', 'aa', 'a'], ['x', 'xy', 'xyz']]
+    cases = []
+    for al in alphabets:
+        for n in range(1, R.pick(5, 6)):
+            for vals in itertools.product(range(5), repeat=n):      # 0..2 letters, 3 = None, 4 = a value outside the items
+                if rng.random() > R.pick(0.12, 0.4):
+                    continue
+                for items in ([0, 1, 2], [0, 2], [2, 1], [1]):
+                    cases.append((al, vals, items))
+    lines = []
+    for al, vals, items in cases:
+        # model: ranks within the alphabet; None -> 98, outsider -> 99 (never among the items)
+        lines.append(enc((8, [Z(items), Z([v if v < 3 else 95 + v for v in vals])])))
+    outs = R.model(lines)
+    for (al, vals, items), o in zip(cases, outs):
+        data = np.array([al[v] if v < 3 else (None if v == 3 else 'zz-not-an-item') for v in vals], dtype=object)
+        its = [al[i] for i in items]
+        want = to_zs(o)
+        R.count(('il', tuple(al), vals, tuple(items)), nontrivial=any(v >= 3 for v in vals), stream='index_lookup')
+        for how in ('direct', 'codes'):
+            try:
+                if how == 'direct':
+                    got = index_lookup(data, its)
+                else:
+                    got = np.asarray(categorical_ndarray(data, categories=np.array(its, dtype=object)).codes)
+                got = [-1 if c != c else int(c) for c in got]
+            except Exception as exc:
+                got = 'raises %s' % type(exc).__name__
+            if got != want:
+                R.fail('correspondence', {'stream': 'index_lookup', 'how': how, 'data': data.tolist(), 'items': its}, {'model': want, 'impl': got})
+            ok = isinstance(got, list) and len(got) == len(data) and all(
+                (c == -1 and (data[i] is None or data[i] not in its)) or (c >= 0 and c < len(its) and its[c] == data[i])
+                for i, c in enumerate(got))
+            if not ok:
+                R.fail('oracle', {'stream': 'index_lookup', 'how': how, 'data': data.tolist(), 'items': its}, {'codes': got})
+    R.stream('index_lookup', cases=len(cases), bound='arrays of length <= 4/5 over 3 letters + None + a value outside the items, 4 item lists, 3 alphabets (sampled)')
+
+
 def run(R):
     from glue.utils.array import (combine_slices, find_chunk_shape, iterate_chunks, view_shape, unbroadcast,
                                   broadcast_arrays_minimal, categorical_ndarray)
@@ -397,6 +448,7 @@ def run(R):
     stream_view_shape(R, view_shape)
     stream_unbroadcast(R, unbroadcast, broadcast_arrays_minimal)
     stream_categorical(R, categorical_ndarray)
+    stream_index_lookup(R, categorical_ndarray)
 
 
 def replay(R, case):
